@@ -13,7 +13,7 @@ CHECKS = {
   technique=B2, ref="DESIGN.md 7/C14"),
  "C19": dict(
   text="The statistics are specified as exact integer/rational definitions; TLC checks their laws (ordering of quantiles, permutation invariance, variance zero iff constant, ...) on every series in scope and emits every series in every order, the empty series and every experiment in scope with the values the definitions assign; the replayer builds real Floats / Experiment / Trial / Generation values and compares every accessor.",
-  note="Exhaustive for series over 4 values up to length 4 (quick) / 5 values up to length 6 (thorough) at three power-of-two scalings, experiments up to 2x2 (quick) / 3x2 (thorough) trials x generations. Floating-point tolerance 1e-12 only where a division is involved. Trusted: TLC, the replayer's construction of experiment records.",
+  note="Exhaustive for series over 4 values up to length 4 (quick) / 5 values up to length 6 (thorough) at three power-of-two scalings, experiments up to 2x2 (quick) / 3x2 with champion fitness {-2,2} and 2x2 with {-2,0,2} (thorough) trials x generations; series also replayed at offsets 2^30 and -2^40. Floating-point tolerance 1e-12 only where a division is involved. Trusted: TLC, the replayer's construction of experiment records.",
   technique=B2, ref="DESIGN.md 7/C19"),
  "C20": dict(
   text="Experiment.Execute is specified as a step machine (one action per step visible to evaluator, observer or caller); the protocol clauses of C20 are invariants over its logs, checked by TLC for every script of outcomes (ok / solved / evaluator error / context cancelled while evaluating, with and without solved) in scope with and without an observer, and additionally for every single observer notification (trial started, generation evaluated, trial finished) during which the observer cancels the context; every behaviour is replayed through the real Execute with a scripted evaluator and a recording observer under both epoch executors and compared log for log.",
@@ -105,9 +105,12 @@ def c19(ctx, replay):
     if replay is not None:
         write_lines(cases_file, replay_cases(replay))
     else:
-        mc = ctx.tlc("MC_Stats", "MC_Stats_thorough.cfg" if thorough else "MC_Stats.cfg", timeout=2400)
-        spec_must_hold(mc, "MC_Stats")
-        n = cat_files(cases_file, [mc.cases_file])
+        files = []
+        for cfg in (["MC_Stats_thorough.cfg", "MC_Stats_thorough2.cfg"] if thorough else ["MC_Stats.cfg"]):
+            mc = ctx.tlc("MC_Stats", cfg, timeout=2400)
+            spec_must_hold(mc, cfg)
+            files.append(mc.cases_file)
+        n = cat_files(cases_file, files)
         ctx.exhaustive = True
         ctx.extra["scope"] = {"cases": n}
     rep_file = ctx.path("stats_report.json")
